@@ -195,6 +195,9 @@ class Gen(object):
         if has_tan:
             # per-corner tangent data; the parameter names of such a source are free (the library reads any three as X,Y,Z)
             srcs.append(source.FloatSource(gid + '-tan', numpy.array([self.f32() for _ in range(3 * 4)], dtype=numpy.float32), r.choice([('X', 'Y', 'Z'), ('A', 'B', 'C'), ('U', 'V', 'W')])))
+        if self.o.get('names') and r.random() < 0.3:
+            # a mesh source need not hold floats: names (labels per vertex, as tools write them), which no primitive uses
+            srcs.append(source.NameSource(gid + '-labels', numpy.array(['v%d' % i for i in range(r.randint(1, 4))]), ('LABEL',)))
         if r.random() < 0.4:
             r.shuffle(srcs)      # the position source need not come first
         g = geometry.Geometry(self.doc, gid, r.choice(['g', 'Geo_1', gid]), srcs, double_sided=r.random() < 0.2)
@@ -329,6 +332,10 @@ class Gen(object):
                 tf.append(scene.MatrixTransform(numpy.array([1, 2, 0, 1, 0, 3, 1, -2, 0, 0, 0.5, 4, 0, 0, 0, 1], dtype=numpy.float32)))
             kids = [scene.LightNode(l) for l in self.doc.lights] + [scene.CameraNode(c) for c in self.doc.cameras]
             nodes.insert(r.randint(0, len(nodes)), scene.Node(self.uid('rig'), children=kids, transforms=tf[:r.randint(1, len(tf))]))
+        if self.o.get('rig') and self.doc.geometries and r.random() < 0.5:
+            # every geometry once more under a node that only shifts it (the bound vertices are the source's plus an offset)
+            nodes.append(scene.Node(self.uid('shift'), children=[scene.GeometryNode(g) for g in self.doc.geometries],
+                                    transforms=[scene.TranslateTransform(float(r.randint(-3, 3)), 2.0, float(r.randint(0, 5)))]))
         if self.o.get('rig'):
             # one library node that holds geometry, instantiated at several places: the same Node object is visited once per instance
             parts = [n for n in self.doc.nodes if any(type(c).__name__ == 'GeometryNode' for c in n.children)]
